@@ -1,4 +1,4 @@
-/* VH_LINK: kv
+/* VH_LINK: kv layout ref_codecs rm_manifest
  * mc.c - E1: stateless schedule exploration of small closed multi-threaded
  * scenarios on the real lcdb, with iterative deviation (preemption) bounding.
  *
@@ -23,6 +23,7 @@
 #include <stdlib.h>
 #include <string.h>
 #include "kv.h"
+#include "layout.h"
 
 int ldb_repair(const char *dbname, const ldb_dbopt_t *options);
 
@@ -102,6 +103,8 @@ static const scen_t scenarios[] = {
    "two threads open and close the SAME second directory through handles of their own while another process probes its lock: never two handles at once, the lock is never lost while a handle is open"},
   {"D18f", "B1,reuse=1", 4, "P0.2 P1.2 P0.2", "", {"B[P0.1,D1] P1.2", "h01 h01"}, 0,
    "as D18 with a nearly full memtable: the in-flight write switches memtables and a background flush runs while the snapshot is held"},
+  {"D2e", "B1", 0, "", "", {"P0.1 P2.1", "P1.1", "B[P2.1,P3.1]"}, 0,
+   "group commit (leader + two queued followers), then the first writer overwrites a key of a follower's batch: sequence numbers stay unique and increasing (C14: checked on the flushed tables)"},
   {"D2b", "B1", 4, "", "", {"B[P0.1,P1.1]", "B[D0,D1]", "t t"}, 0,
    "batch writer + batch deleter + iterator scanner (both keys or none)"},
 };
@@ -144,7 +147,8 @@ typedef struct oprec_s {
 static oprec_t recs[MAXTHR][MAXTOPS];
 static int nrecs[MAXTHR];
 static int final_vids[KV_MAXKEYS];
-static char held_err[400];
+static char held_err[600];
+static uint64_t n_layout_checks;
 static const ldb_snapshot_t *kept_snap[8];
 #define DB2 "/vfs/db2"
 static ldb_t *own_db[8];
@@ -496,6 +500,18 @@ exec_body(void *arg) {
         }
         kh_clear(&b);
       }
+  if (!strcmp(prop, "C14")) {
+    /* C14 after a concurrent execution: flush what the threads wrote and check the reported level structure with the
+       independent decoders (duplicate-free sorted runs, shallower = strictly newer, MANIFEST fold == reported) */
+    lay_stats_t ls;
+    char le[500];
+    memset(&ls, 0, sizeof(ls));
+    ldb_test_compact_memtable(gdb);
+    sch_drain();
+    if (!lay_check(gdb, DB, &cfg, &ls, le, sizeof(le)) && !held_err[0])
+      snprintf(held_err, sizeof(held_err), "layout after the concurrent execution and a flush: %s", le);
+    n_layout_checks++;
+  }
   /* final state */
   it = ldb_iterator(gdb, NULL);
   do_scan(MAXTHR, it, final_vids, &st);
@@ -677,9 +693,9 @@ run_one(const int *prefix, int nprefix, xres_t *x) {
     snprintf(x->err, sizeof(x->err), "%s", exec_err);
   } else if (held_err[0] && strcmp(prop, "C09") != 0) {
     x->ok = 0;
-    snprintf(x->sig, sizeof(x->sig), "%s", strstr(held_err, "ldb_open of") || strstr(held_err, "obtains the lock") ? "lock-exclusivity-broken-concurrently" : "held-snapshot-changed");
+    snprintf(x->sig, sizeof(x->sig), "%s", strstr(held_err, "ldb_open of") || strstr(held_err, "obtains the lock") ? "lock-exclusivity-broken-concurrently" : strstr(held_err, "layout after") ? "layout-malformed-concurrent" : "held-snapshot-changed");
     snprintf(x->err, sizeof(x->err), "%s", held_err);
-  } else if (strcmp(prop, "C09") != 0) {
+  } else if (strcmp(prop, "C09") != 0 && strcmp(prop, "C14") != 0) {   /* C14 is judged by the layout oracle only */
     char e[600];
     if (!final_ok) {
       x->ok = 0;
